@@ -439,6 +439,32 @@ def r14d(ctx, f, specs):
                            f"changes { {k: (base[k], got[k]) for k in got if got[k] != base[k]} }")
 
 
+def r14e(ctx):
+    m = ctx.model
+    ctx.rule("R14e", "the output writers pass text through unchanged: where a writer tests for '\\n' it splits on '\\n' "
+                     "only (str.splitlines() also breaks on \\r, \\f, \\x85, U+2028..., and drops the separator, so the "
+                     "status-buffered CLI stream would differ from the library's)")
+    n = 0
+    for f in sorted(m.functions.values(), key=lambda f: f.qual):
+        if f.module not in ("graphtage.progress", "graphtage.printer") or ".<locals>." in f.qual:
+            continue
+        sl = [c for c in walk_no_nested(f.node) if isinstance(c, ast.Call) and isinstance(c.func, ast.Attribute)
+              and c.func.attr == "splitlines"]
+        nl = [c for c in walk_no_nested(f.node) if isinstance(c, ast.Constant) and c.value == "\n"]
+        sp = [c for c in walk_no_nested(f.node) if isinstance(c, ast.Call) and isinstance(c.func, ast.Attribute)
+              and c.func.attr == "split" and c.args and isinstance(c.args[0], ast.Constant) and c.args[0].value == "\n"]
+        if sl and nl:
+            n += 1
+            ctx.violation("R14e", f.file, f.short, sl[0], f"{f.short} splitlines",
+                          f"{f.short} decides on '\\n' but splits with `{norm(sl[0], 40)}`: text containing \\r, \\x0b, \\x0c, "
+                          f"\\x1c-\\x1e, \\x85, U+2028 or U+2029 is broken into extra lines and the separator is lost on the "
+                          f"status-buffered (CLI) path only")
+        elif sp:
+            n += 1
+            ctx.proved("R14e", f.file, f.short, sp[0], f"{f.short} split", "splits on '\\n' exactly")
+    ctx.floor("R14e", n, 1, "line-splitting sites in the output writers")
+
+
 def enclosing(n):
     while n is not None and not isinstance(n, ast.stmt):
         n = parent(n)
@@ -453,6 +479,7 @@ def run(ctx):
     r14b(ctx, f, specs, groups)
     r14c(ctx)
     r14d(ctx, f, specs)
+    r14e(ctx)
     ctx.assume("argparse semantics (dest derivation, store_const, mutually exclusive groups) as documented")
     ctx.assume("the library pipeline is build_tree -> TreeNode.diff -> formatter.print; output writers below "
                "Printer.write (status-line buffering) are not analysed")
